@@ -161,6 +161,7 @@ def run_case(case: dict) -> RunResult:
 
                     hf = HyperVFile(world.handle(p))
                     got = hf.as_dict()
+                    got_again = hf.as_dict()  # decoding is a read: asking again gives the same tree
                     want_seq = max(st.hdr_seq) if k == nw else None
             except BudgetExceeded:
                 viol = Violation(prop, "budget", log.seq, f"decode at cut {k}/{nw} did not finish", dict(sig, klass="budget"))
@@ -173,7 +174,7 @@ def run_case(case: dict) -> RunResult:
                                  dict(sig, klass="raised:" + type(e).__name__))
                 break
             log.add("reader", "decode", k, repr(sorted(got))[:80])
-            d = _diff(got, want)
+            d = _diff(got, want) or (("second decode of the same object: " + _diff(got_again, want)) if _diff(got_again, want) else None)
             crash = k != nw
             pre = crash and k not in commit_points
             key = ("crash-pre-commit" if pre else "crash-post-commit" if crash else "final", len(st.tables), min(_depth(want), 6), _types(want))
